@@ -47,10 +47,11 @@ def sh(cmd, cwd=None, timeout=1800, env=None, check=True, inp=None):
 # ----------------------------------------------------------------------------- Coq side
 def coq_sources():
     out = []
-    for root, _, files in os.walk(os.path.join(COQ, "theories")):
-        for f in files:
-            if f.endswith(".v"):
-                out.append(os.path.join(root, f))
+    for top in ("theories", "gen_theorems"):
+        for root, _, files in os.walk(os.path.join(COQ, top)):
+            for f in files:
+                if f.endswith(".v"):
+                    out.append(os.path.join(root, f))
     return sorted(out)
 
 
@@ -194,6 +195,18 @@ def proof_check(pid, gen_theorems=()):
     return res
 
 
+def proof_check_streams(pid, name, extra=()):
+    """proof_check plus the theorems over the stream bodies translated from the source (tools/gen_streams.py -> GenStreams.v ->
+    coq/gen_theorems/<name>.v); a body the translator cannot read is a broken obligation, never skipped."""
+    gens = gen_sources()
+    proof = proof_check(pid, gen_theorems=tuple(extra) + (name,))
+    if gens.get("streams_error"):
+        proof["ok"] = False
+        proof["problems"].append("translator tools/gen_streams.py cannot read the current source: " + gens["streams_error"])
+    proof["translated_functions"] = [("%s::%s" % (k, f)) for (k, f, n, ins, ps) in (gens.get("streams") or [])]
+    return proof
+
+
 def strip_coq_comments(s):
     out, depth, i = [], 0, 0
     while i < len(s):
@@ -233,7 +246,7 @@ def gen_dir():
 
 def gen_sources():
     """Translators for tabular source, regenerated from the repository on every run."""
-    import gen_constants, gen_accessors, gen_formulas
+    import gen_constants, gen_accessors, gen_formulas, gen_streams, rustmini
     with Lock("gen" + repo_tag()):
         items, n_all = gen_constants.main(REPO, gen_dir())
         accs, ctors = gen_accessors.main(REPO, gen_dir())
@@ -245,7 +258,16 @@ def gen_sources():
             try: os.remove(os.path.join(gen_dir(), "GenFormulas.v"))
             except OSError: pass
             flines, ferr = None, str(ex)
-    return {"constants": items, "n_pub_const": n_all, "accessors": accs, "ctors": ctors, "formulas": flines, "formulas_error": ferr}
+        try:
+            sinfo = gen_streams.main(REPO, gen_dir(), {it[0]: (int(it[1]), int(it[2])) for it in items})
+            serr = None
+        except (rustmini.ParseError, KeyError, IndexError) as ex:
+            # the theorems over the translated stream bodies must fail, not pass on a stale translation
+            try: os.remove(os.path.join(gen_dir(), "GenStreams.v"))
+            except OSError: pass
+            sinfo, serr = None, "%s: %s" % (type(ex).__name__, ex)
+    return {"constants": items, "n_pub_const": n_all, "accessors": accs, "ctors": ctors, "formulas": flines, "formulas_error": ferr,
+            "streams": sinfo, "streams_error": serr}
 
 
 def compile_gen_theorems(name, extra_gen=()):
